@@ -569,6 +569,12 @@ def dispatch_sweep(res: Result, counter: list[int]) -> int:
                 w.drain()
                 n += 1
                 counter[0] += 1
+                if name is None:
+                    # an undeclared id is undeclared every time it is seen: the same frame again, right behind the first
+                    w.io_chunk(w.sock, w.ndev.data_frame(t, b"") if noise else frame)  # type: ignore[union-attr]
+                    w.drain()
+                    n += 1
+                    counter[0] += 1
                 names = [type(m).__name__ for m in got]
                 tag = "noise" if noise else "plain"
                 if name is not None and names != [name]:
